@@ -1192,6 +1192,166 @@ def rule_a8(ctx):
         raise AnalysisBroken("only %d completions after an unlock/re-lock window found" % n)
 
 
+def rule_a9(ctx):
+    """completed => unparked"""
+    from .. import guards as G
+    r = ctx.rule("C02.A9", "T2", "an operation that is completed out of its park field leaves that field: where a function reads an aio "
+                 "from a pointer field of an object (x = o->F) and completes x, the field is cleared or overwritten in the same "
+                 "critical section, before or after the completion -- a field that still names a finished operation makes the "
+                 "object look busy for good (the next connect is refused with NNG_EBUSY) or completes the stale aio again", floor=10)
+    prog = ctx.prog
+    n = 0
+
+    def is_unlock(e):
+        return e is not None and any(m.get("k") == "call" and m.get("fn") == "nni_mtx_unlock" for m in walk(e))
+    for fn in prog.functions:
+        if fn.cfg_failed or fn.file.endswith("_test.c"):
+            continue
+        for c in fn.calls(("nni_aio_finish", "nni_aio_finish_sync", "nni_aio_finish_error", "nni_aio_finish_msg")):
+            a0 = fn.expand(c.node["args"][0]) if c.node["args"] else None
+            while a0 is not None and a0.get("k") in ("cast", "asg"):
+                a0 = fn.expand(a0["e"] if a0.get("k") == "cast" else a0["rhs"])
+            if a0 is None:
+                continue
+            if a0.get("k") == "mem" and is_aio_ptr(a0):
+                tpos, src = (c.b, c.i), a0          # the field itself is handed to the completion (no local in between)
+                a0 = {"k": "var", "n": show(a0)}
+            elif a0.get("k") == "var":
+                rd = G.reaching_defs(fn, a0["n"], (c.b, c.i))
+                if len(rd) != 1:
+                    continue
+                tpos, src = rd[0]
+                while src is not None and src.get("k") in ("cast", "asg"):
+                    src = src["e"] if src.get("k") == "cast" else src["rhs"]
+                if src is None or src.get("k") != "mem" or not is_aio_ptr(src):
+                    continue
+            else:
+                continue
+            fld = last_field(src)
+            n += 1
+            stores = {(t.b, t.i) for t in fn.assigns() if t.node["lhs"].get("k") == "mem" and last_field(t.node["lhs"]) == fld}
+            # cleared between the take and the completion on every path?
+            before = tpos != (c.b, c.i) and not ((c.b, c.i) in fn.reach((tpos[0], tpos[1] + 1), blocked=lambda b, i, e: (b, i) in stores))
+            # ... or between the completion and the end of the critical section
+            after = fn.reach((c.b, c.i + 1), blocked=lambda b, i, e: (b, i) in stores)
+            leak = [(b, i) for (b, i) in after if (i < len(fn.blocks[b].elems) and is_unlock(fn.blocks[b].elems[i])) or (b, i) == (fn.exit, 0)]
+            # the object itself is given up right after (handed to its reaper / destructor): nobody can look at the field again
+            base = fn.expand(src["b"]) if src.get("b") is not None else None
+            gone = set()
+            for k in fn.calls():
+                fnm = k.node.get("fn") or ""
+                if fnm.endswith(("_reap", "_fini", "_free", "_destroy")) or fnm == "nni_reap":
+                    if any(x is not None and base is not None and same_expr(fn.expand(x), base) for x in k.node["args"]):
+                        gone.add((k.b, k.i))
+            if leak and gone and not [p_ for p_ in fn.reach((c.b, c.i + 1), blocked=lambda b, i, e: (b, i) in stores or (b, i) in gone)
+                                      if p_ == (fn.exit, 0)]:
+                r.ob(fn, "%s completed at line %s; the object is given up before the function returns" % (a0["n"], c.line))
+            elif before or not leak:
+                r.ob(fn, "%s completed at line %s and %s rewritten in the same critical section" % (a0["n"], c.line, fld))
+            else:
+                ctx.fail(r, fn, "%s still names the completed operation" % fld, c.line,
+                         "%s completes %s (taken from %s) at line %s and reaches line %s without storing to %s: the field keeps "
+                         "pointing at a finished operation -- the object looks busy to the next caller, or the stale aio is "
+                         "completed a second time" % (fn.name, a0["n"], fld, c.line, fn.line_of(*leak[0]), fld))
+    if n < 10:
+        raise AnalysisBroken("only %d completions out of park fields found" % n)
+
+
+def rule_a10(ctx):
+    r = ctx.rule("C02.A10", "T10", "a completion callback reads the outcome of the operation that completed: every nni_aio_result / nni_aio_count / "
+                 "nni_aio_get_output / nni_aio_get_msg applied to an aio embedded in an object (&x->F) inside a function that is "
+                 "registered as the callback of embedded aios is applied to one of the aios that callback is registered for -- "
+                 "the result of a sibling aio says nothing about this completion (a timer callback that looks at the accept "
+                 "aio's last result never re-arms the accept)", floor=80)
+    prog = ctx.prog
+    cbs = {}
+    for (f, aioexpr, cbname, arg, site) in prog.aio_callbacks():
+        lf = last_field(strip_addr(aioexpr)) if aioexpr is not None else None
+        cbs.setdefault(cbname, set()).add(lf)
+    n = 0
+    for cbname, fields in sorted(cbs.items()):
+        fn = prog.fn(cbname)
+        if fn is None or fn.cfg_failed or None in fields:
+            continue
+        for c in fn.calls(("nni_aio_result", "nni_aio_count", "nni_aio_get_output", "nni_aio_get_msg")):
+            a = strip_addr(fn.expand(c.node["args"][0])) if c.node["args"] else None
+            if a is None or a.get("k") != "mem" or "*" in (a.get("t") or ""):
+                continue
+            n += 1
+            lf = last_field(a)
+            if lf in fields:
+                r.ob(fn, "%s(%s) line %s: its own aio" % (c.node["fn"], lf, c.line))
+            else:
+                ctx.fail(r, fn, "%s of a sibling aio" % c.node["fn"], c.line,
+                         "%s is the callback of %s, but at line %s it applies %s to %s: what it then decides (re-arm, deliver, fail) "
+                         "follows the last outcome of another operation, not of the one that has just completed"
+                         % (fn.name, ", ".join(sorted(fields)), c.line, c.node["fn"], lf))
+    if n < 80:
+        raise AnalysisBroken("only %d reads of embedded aios in callbacks" % n)
+
+
+def rule_a11(ctx):
+    from .. import guards as G
+    r = ctx.rule("C02.A11", "T2", "an operation is completed only when it is off its wait list: where a function has linked the caller's aio "
+                 "onto a list of the object (nni_aio_list_append) and then completes that aio -- itself, or by handing it to a "
+                 "helper of the same file that completes its aio parameter -- it has taken it off the list first; a finished "
+                 "operation left on the list is completed a second time by whoever serves or drains the list later", floor=30)
+    prog = ctx.prog
+    FIN = ("nni_aio_finish", "nni_aio_finish_sync", "nni_aio_finish_error", "nni_aio_finish_msg")
+
+    def completes_param(h):
+        """indices of aio parameters that h completes without unlinking them itself"""
+        out = set()
+        names = [p_["n"] for p_ in h.params]
+        for c in h.calls(FIN):
+            a0 = h.expand(c.node["args"][0]) if c.node["args"] else None
+            if a0 is not None and a0.get("k") == "var" and a0["n"] in names:
+                unl = [x for x in h.calls(("nni_aio_list_remove", "nni_list_remove", "nni_list_node_remove"))
+                       if any(y is not None and h.expand(y).get("k") == "var" and h.expand(y)["n"] == a0["n"] for y in x.node["args"])]
+                if not unl:
+                    out.add(names.index(a0["n"]))
+        return out
+    n = 0
+    for f in prog.functions:
+        if f.cfg_failed or f.file.endswith("_test.c"):
+            continue
+        names = [p_["n"] for p_ in f.params if "aio" in (p_.get("t") or "")]
+        if not names:
+            continue
+        for c in f.calls(("nni_aio_list_append", "nni_list_append")):
+            a = c.node["args"]
+            v = f.expand(a[1]) if len(a) > 1 and a[1] is not None else None
+            if v is None or v.get("k") != "var" or v["n"] not in names:
+                continue
+            n += 1
+            unlink = {(x.b, x.i) for x in f.calls(("nni_aio_list_remove", "nni_list_remove", "nni_list_node_remove"))
+                      if any(y is not None and f.expand(y).get("k") == "var" and f.expand(y)["n"] == v["n"] for y in x.node["args"])}
+            after = f.reach((c.b, c.i + 1), blocked=lambda b, i, e: (b, i) in unlink)
+            bad = None
+            for k in f.calls():
+                if (k.b, k.i) not in after:
+                    continue
+                fnm = k.node.get("fn")
+                args = [f.expand(y) if y is not None else None for y in k.node["args"]]
+                if fnm in FIN and args and args[0] is not None and args[0].get("k") == "var" and args[0]["n"] == v["n"]:
+                    bad = (k, fnm)
+                elif fnm:
+                    h = prog.resolve(f, fnm)
+                    if h is not None and h is not f and h.file == f.file and not h.cfg_failed:
+                        for i_ in completes_param(h):
+                            if i_ < len(args) and args[i_] is not None and args[i_].get("k") == "var" and args[i_]["n"] == v["n"]:
+                                bad = (k, fnm)
+            if bad:
+                ctx.fail(r, f, "completed while still on %s" % show(f.expand(a[0])), bad[0].line,
+                         "%s links %s onto %s (line %s) and then completes it through %s (line %s) without unlinking it: the "
+                         "finished operation stays on the list and is completed again when the list is served or drained"
+                         % (f.name, v["n"], show(f.expand(a[0])), c.line, bad[1], bad[0].line))
+            else:
+                r.ob(f, "%s parked at line %s is not completed while linked" % (v["n"], c.line))
+    if n < 30:
+        raise AnalysisBroken("only %d parks of a caller's aio found" % n)
+
+
 def rule_p1(ctx):
     """the byte-stream connections and the platform's dial / accept / resolve queues (stream I/O is one of the operation
     kinds of C02): C10.R11's rule instantiated for src/platform and src/supplemental"""
@@ -1217,3 +1377,6 @@ def run(ctx):   # noqa: F811
     ctx.guard(rule_t2)
     ctx.guard(rule_a8)
     ctx.guard(rule_p1)
+    ctx.guard(rule_a9)
+    ctx.guard(rule_a10)
+    ctx.guard(rule_a11)
